@@ -433,6 +433,8 @@ def format_one(eng, flags, width, prec, conv, val):
 
 def int_to_symstr(eng, val, width, left):
     """'%Nd' % symbolic int: exact character-vector model for |val| < 10**MAXD."""
+    if not width and not eng.feasible(z3.Not(z3.And(val >= 0, val <= 9))):
+        return SymStr([concretize(48 + val)])          # one decimal digit
     MAXD = None
     for k in range(1, 13):
         if not eng.feasible(z3.Not(z3.And(val > -10 ** k, val < 10 ** k))):
@@ -573,7 +575,16 @@ def _lstrip(eng, s, chars=None):
 def _rstrip(eng, s, chars=None):
     if chars is not None:
         return _strip_chars(s, chars, False, True)
-    return norm_str(V.str_strip(s, False, True))
+    return _settle_len(eng, norm_str(V.str_strip(s, False, True)), s)
+
+
+def _settle_len(eng, r, s):
+    """A stripped string whose length is symbolic only syntactically (no character of s can be blank under
+    the path condition) is the fixed-length string s."""
+    if isinstance(r, SymStr) and not r.fixed and isinstance(s, SymStr) and s.fixed and isinstance(s.n, int):
+        if not eng.feasible(to_int(r.n) != s.n):
+            return norm_str(SymStr(r.chars[:s.n]))
+    return r
 
 
 def _strip_chars(s, chars, left, right):
@@ -1372,11 +1383,18 @@ def np_array(eng, x, dtype=None):
     return NVec(items)
 
 
+class _DType(object):
+    def __init__(self, name, integer): self.name, self.integer = name, integer
+    def __repr__(self): return '<dtype %s>' % self.name
+
+
 @B('np.zeros')
 def np_zeros(eng, n, dtype=None):
     if isinstance(n, tuple) and len(n) == 2 and all(isinstance(k, int) for k in n):
         return NVec([NVec([Fraction(0)] * n[1]) for _ in range(n[0])])
     if not isinstance(n, int): raise Unsupported('np.zeros of symbolic size')
+    if isinstance(dtype, _DType) and dtype.integer:
+        return NVec([0] * n)
     return NVec([Fraction(0)] * n)
 
 
@@ -1411,6 +1429,22 @@ def np_sum(eng, v):
     return b_sum.fn(eng, v.items if isinstance(v, NVec) else v)
 
 
+@B('np.any')
+def np_any(eng, v):
+    items = v.items if isinstance(v, NVec) else list(eng.iterate(v))
+    conds = []
+    for x in items:
+        if isinstance(x, NVec):
+            x = np_any.fn(eng, x)
+        if isinstance(x, (bool, int, Fraction)):
+            if x: return True
+            continue
+        if x is None: continue
+        conds.append(x if z3.is_bool(x) else x != 0)
+    if not conds: return False
+    return z3.Or(*conds) if len(conds) > 1 else conds[0]
+
+
 NVEC_METHODS['copy'] = Builtin('ndarray.copy', lambda eng, v: NVec(v.items))
 NVEC_METHODS['tolist'] = Builtin('ndarray.tolist', lambda eng, v: list(v.items))
 
@@ -1432,10 +1466,24 @@ BUILTINS['None'] = None
 BUILTINS['print'] = Builtin('print', lambda eng, *a, **k: None)
 BUILTINS['slice'] = Builtin('slice', lambda eng, *a: slice(*a))
 
+def _concrete_str(p):
+    if not isinstance(p, str): raise Unsupported('path operation on a symbolic string')
+    return p
+
+
+def _fs_exists(eng, p):
+    # the file system is whatever the obligation program installs (a set of tape files); none by default
+    hook = eng.opaque.get('os.path.exists')
+    if hook is None: raise Unsupported('os.path.exists without a file-system model')
+    return hook(eng, [p], {})
+
+
 _np = {
-    'array': np_array, 'zeros': np_zeros, 'ones': np_ones, 'dot': np_dot, 'argmax': np_argmax, 'argmin': np_argmin, 'searchsorted': np_searchsorted, 'sqrt': m_sqrt, 'sum': np_sum,
+    'array': np_array, 'zeros': np_zeros, 'ones': np_ones, 'dot': np_dot, 'argmax': np_argmax, 'argmin': np_argmin, 'searchsorted': np_searchsorted, 'sqrt': m_sqrt, 'sum': np_sum, 'any': np_any,
     'nan': NAN, 'inf': V.Inf(1), 'float64': b_float, 'abs': b_abs, 'ceil': m_ceil, 'floor': m_floor,
     'pi': None,
+    'int8': _DType('int8', True), 'int16': _DType('int16', True), 'int32': _DType('int32', True), 'int64': _DType('int64', True),
+    'float32': _DType('float32', False),
 }
 _np_mod = ModuleVal('numpy'); _np_mod.globals = dict(_np)
 _np_linalg = ModuleVal('numpy.linalg'); _np_linalg.globals = {'norm': np_norm}
@@ -1454,7 +1502,10 @@ MODULES = {
     'numpy.linalg': {'norm': np_norm},
     'functools': {'partial': b_partial},
     'copy': {'copy': b_copy, 'deepcopy': b_deepcopy},
-    'sys': {'version_info': (3, 12, 1)}, 'os': {}, 'struct': {}, 'collections': {'Iterable': _TypeTag('Iterable', lambda x: isinstance(x, (list, tuple, NVec, str, dict, set)))},
+    'sys': {'version_info': (3, 12, 1)}, 'os': {},
+    'os.path': {'splitext': Builtin('os.path.splitext', lambda eng, p: __import__('os').path.splitext(_concrete_str(p))),
+                'basename': Builtin('os.path.basename', lambda eng, p: __import__('os').path.basename(_concrete_str(p))),
+                'exists': Builtin('os.path.exists', lambda eng, p: _fs_exists(eng, p))}, 'struct': {}, 'collections': {'Iterable': _TypeTag('Iterable', lambda x: isinstance(x, (list, tuple, NVec, str, dict, set)))},
     'collections.abc': {'Iterable': _TypeTag('Iterable', lambda x: isinstance(x, (list, tuple, NVec, str, dict, set)))},
     'scipy.optimize': {'fsolve': sp_fsolve},
 }
